@@ -28,10 +28,11 @@ Monitors (ctx.check ``mon=`` names)
 
 State errors are measured as e = max(|dr|/|r|, |dv|/|v|) (dimensionless, i.e. radians of misplacement).
 
-Tolerances (calibrated on the unchanged tree with 1.3e6 boundary-biased orbits, see constants below)
+Tolerances (calibrated on the unchanged tree: 6.4e5 orbits + 6.4e5 anomaly cases + 6.4e5 configs, boundary-biased; constants below)
   * T_BASE      rounding of a handful of rotations / dot products
   * arccos seam eci2coe extracts angles with arccos; an argument within k ulp of +-1 loses sqrt(2 k eps) ~ 4e-8 rad,
-                elsewhere k eps / |sin angle|.  tol = min(T_SEAM_MAX, C_SEAM / s), s = min |sin| of the angles involved.
+                elsewhere k eps / |sin angle|.  tol = min(T_SEAM_MAX, C_SEAM / s) / (1 - e), s = min |sin| of the angles
+                involved (the 1/(1-e) is the relative velocity sensitivity to an anomaly error near apogee).
   * circular    below ECCENTRICITY_LIMIT the code *documents* nu = E = M and argp := 0  ->  + 4 e per approximated step
   * equatorial  below INCLINATION_LIMIT (and inside the arccos resolution band 1e-7 rad) raan := 0  ->  + 4 min(i, pi - i)
   * EQE         p, q = w_xy / (1 + I w_z): relative conditioning 2 / (1 + I cos i); sets are only exercised where
@@ -86,14 +87,14 @@ I_BAND = 1e-7          # resolution band of arccos(h_z): below this eci2coe may 
 R_EARTH = 6378.1363
 
 # ---- calibrated tolerances (worst observed on the unchanged tree in brackets) -------------------------------
-T_BASE = 2e-11         # [coe_forward 1.0e-15, roundtrips 3e-13]
-C_SEAM = 2e-13         # [worst err*s 1.5e-15]
-T_SEAM_MAX = 4e-6      # [worst seam error 3.3e-8 = sqrt(2 k eps)]
-T_EQE = 2e-11          # times conditioning 2/(1 + I cos i)   [worst err/cond 6e-14]
-T_ANOM = 2e-11         # anomaly inverse pairs / reference     [worst 2.5e-13 incl. Newton termination]
-T_KEPLER = 1e-11       # residual of Kepler's equation         [worst 3.6e-15; Newton step tol 1.48e-8 => err ~ e/(2(1-e)) tol^2]
-T_A_REL = 1e-9         # semi-major axis relative               [worst 1.3e-14]
-T_E_ABS = 1e-10        # eccentricity absolute                  [worst 2.3e-15]
+T_BASE = 2e-11         # [coe_forward 7.4e-16, class/config paths 3.3e-15]
+C_SEAM = 2e-13         # [worst err * s * (1-e) 1.4e-15 away from the seams]
+T_SEAM_MAX = 4e-6      # [worst seam error 2.9e-8 = sqrt(2 k eps); x 1/(1-e): 2.3e-7 at e = 0.9, nu = pi]
+T_EQE = 2e-11          # times conditioning 2/(1 + I cos i)   [worst err/cond 1.3e-13]
+T_ANOM = 2e-11         # anomaly inverse pairs / reference     [worst 1.5e-13 incl. Newton termination]
+T_KEPLER = 1e-11       # residual of Kepler's equation         [worst 1.8e-15; Newton step tol 1.48e-8 => err ~ e/(2(1-e)) tol^2]
+T_A_REL = 1e-9         # semi-major axis relative               [worst 2.3e-14]
+T_E_ABS = 1e-10        # eccentricity absolute                  [worst 2.2e-15]
 
 _WORST: dict[str, float] = {}   # calibration aid (tools read it; never used for verdicts)
 
@@ -161,7 +162,8 @@ def _seam_s(*angles):
 def _seam_tol(els):
     a, e, inc, raan, argp, nu = els
     s = _seam_s(inc, raan, argp, nu, argp + nu, raan + argp, raan - argp, raan + argp + nu, raan - argp - nu)
-    return T_SEAM_MAX if s <= 0.0 else min(T_SEAM_MAX, C_SEAM / s)
+    # an anomaly error d_nu moves the velocity by sqrt(mu/p) d_nu while |v| >= sqrt(mu/p) (1 - e): relative factor 1/(1-e)
+    return (T_SEAM_MAX if s <= 0.0 else min(T_SEAM_MAX, C_SEAM / s)) / (1.0 - e)
 
 
 def _approx_tol(els, circ=True, eq=True):
@@ -519,7 +521,7 @@ def chk_orbit(ctx, els):
                          f"coe2eci(eci2coe(x)) != x for {cls} orbit {els}; eci2coe gave {c}", wit)
         ok3, xc = _call(ctx, "coe-class-fromECI", wit, lambda: ClassicalElements.fromECI(xr).toECI())
         if ok3:
-            _cmp(ctx, "coe_roundtrip", "coe-class-roundtrip" + sfx, _serr(xc, xr), (T_BASE + seam, 2 * apx),
+            _cmp(ctx, "coe_roundtrip", ("coe-roundtrip" + sfx) if retro_eq else "coe-class-roundtrip", _serr(xc, xr), (T_BASE + seam, 2 * apx),
                  f"ClassicalElements.fromECI(x).toECI() != x for {cls} orbit {els}", wit)
 
     # ---- ClassicalElements(elements): singularityCheck path -------------------------------------------------
